@@ -309,13 +309,15 @@ var (
 	c07Now     atomic.Pointer[c07Current]
 	c07Beat    atomic.Uint64
 	c07DogOnce sync.Once
-	// Budget of one (input, role) battery, whose legitimate cost is milliseconds: process CPU
-	// time (a spinning call; immune to an overloaded machine) and wall time (a blocked call).
-	c07GuardCPU  = 5.0
-	c07GuardWall = 120 * time.Second
-	// Backstop limits of the watchdog goroutine (it ends the worker process).
-	c07StuckCPU = 15.0
-	c07StuckS   = 300
+	// Budget of ONE library call, whose legitimate cost is micro- to milliseconds: user CPU
+	// time of the process (a spinning call; immune to an overloaded or swapping machine, where
+	// wall time and kernel time of a starved process grow without any progress) and, for a
+	// call that blocks without spinning, a very generous wall time.
+	c07GuardCPU  = 8.0
+	c07GuardWall = 600 * time.Second
+	// Backstop limits of the watchdog goroutine per battery (it ends the worker process).
+	c07StuckCPU = 40.0
+	c07StuckS   = 1500
 	c07HeapGiB  = 3
 	// c07Abandoned is set when a battery was abandoned (its goroutine still runs): the worker
 	// skips the rest of its units so that its findings are written out promptly.
@@ -332,19 +334,21 @@ func c07Describe(cur *c07Current) string {
 	return fmt.Sprintf("unit=%d role=%s method=%q input=%s", cur.unit, cur.role, m, strconv.QuoteToASCII(string(cur.input)))
 }
 
+// c07ProcessCPU is the user CPU time of the process in seconds.
 func c07ProcessCPU() float64 {
 	var ru syscall.Rusage
 	if syscall.Getrusage(syscall.RUSAGE_SELF, &ru) != nil {
 		return 0
 	}
-	return float64(ru.Utime.Sec+ru.Stime.Sec) + float64(ru.Utime.Usec+ru.Stime.Usec)/1e6
+	return float64(ru.Utime.Sec) + float64(ru.Utime.Usec)/1e6
 }
 
-// c07Guarded runs one battery in its own goroutine under the termination monitor: when the
-// battery has used c07GuardCPU seconds of process CPU time or c07GuardWall of wall time
-// without returning it is abandoned (a goroutine cannot be killed; it keeps running) and a
-// finding naming the call that did not return is produced. The runner of an abandoned battery
-// must not be read any more. Clocks are used for this bound only.
+// c07Guarded runs one battery in its own goroutine under the termination monitor: when ONE
+// call of the battery has used c07GuardCPU seconds of user CPU time or c07GuardWall of wall
+// time without returning, the battery is abandoned (a goroutine cannot be killed; it keeps
+// running) and a finding naming that call is produced. Progress from call to call resets the
+// budget, so a slow machine cannot trip it. The runner of an abandoned battery must not be
+// read any more. Clocks are used for this bound only.
 func c07Guarded(role string, in []byte, full bool, pick uint64, cur *c07Current) (*c07Runner, *c07Finding) {
 	r := newC07Runner(full, pick)
 	r.cur = cur
@@ -354,20 +358,26 @@ func c07Guarded(role string, in []byte, full bool, pick uint64, cur *c07Current)
 		defer close(done)
 		r.run(role, in)
 	}()
-	tick := time.NewTicker(100 * time.Millisecond)
+	tick := time.NewTicker(200 * time.Millisecond)
 	defer tick.Stop()
+	lastCall := cur.method.Load()
 	for {
 		select {
 		case <-done:
 			return r, nil
 		case <-tick.C:
+			if p := cur.method.Load(); p != lastCall { // another call has started: progress
+				lastCall, start, cpu0 = p, time.Now(), c07ProcessCPU()
+				continue
+			}
 			used, wall := c07ProcessCPU()-cpu0, time.Since(start)
 			if used > c07GuardCPU || wall > c07GuardWall {
 				c07Abandoned.Store(true)
 				m := ""
-				if p := cur.method.Load(); p != nil {
-					m = *p
+				if lastCall != nil {
+					m = *lastCall
 				}
+				fmt.Fprintf(os.Stderr, "C07: abandoned %s after %.1f s user CPU, %.0f s wall: %s\n", m, used, wall.Seconds(), c07Describe(cur))
 				return nil, &c07Finding{"termination", m, fmt.Sprintf("the call did not return (abandoned after %.0f s of CPU time, %.0f s of wall time, on a %d byte input)", used, wall.Seconds(), len(in))}
 			}
 		}
@@ -469,7 +479,7 @@ func c07Run(c *mon.Ctx, i int) {
 				c.Count("monitor firings: termination", 1)
 				c.Eval(1)
 				c.Violate("call", c07MakeCase(role, in), c07Expected, c07HungString(hung),
-					fmt.Sprintf("termination monitor fired in role %q (%s)", role, c07MethodClass(hung.Method)))
+					fmt.Sprintf("termination monitor fired in role %q (%s): %s", role, c07MethodClass(hung.Method), hung.Detail))
 				continue
 			}
 
@@ -587,7 +597,7 @@ func c07Report(c *mon.Ctx, role string, input []byte, f c07Finding) {
 // c07HungString renders a termination finding without its measured times (they differ from
 // run to run; the replay compares this text).
 func c07HungString(f *c07Finding) string {
-	return "termination monitor, " + f.Method + ": the call did not return within the CPU/wall budget of a battery"
+	return "termination monitor, " + f.Method + ": the call did not return within the CPU/wall budget of one call"
 }
 
 func c07ReplayCall(raw json.RawMessage) string {
@@ -606,7 +616,7 @@ func init() {
 		ID:    "C07",
 		Level: "exploration",
 		Rule: "inputs: every seed of /verif/corpus (frozen repository test data plus a hand list of lexer edge tokens and feature schemas) verbatim and with other line ends, EVERY truncation of every seed, " +
-			"suffixes, dictionary insert/substitute/delete (about 140 JSight/JSON/enum/regex tokens and byte classes; 6 random tokens per offset and operator) at every offset in the thorough tier and at 10 sampled offsets per seed (first, last, random) in the quick tier, " +
+			"suffixes, dictionary insert/substitute/delete (115 JSight/JSON/enum/regex tokens and byte classes; 6 random tokens per offset and operator) at every offset in the thorough tier and at 10 sampled offsets per seed (first, last, random) in the quick tier, " +
 			"splices between seeds and random byte strings, all <= 4 KiB; each input is used as root schema, user type, enum rule, regex type and JSON document, and every public constructor/method " +
 			"combination of that role is called (variants: KeysAreOptionalByDefault, helper types/rules present, eight reference forms of the type, method called first on a fresh object or after the others). " +
 			"Every call runs under the panic and termination monitors; every returned error under the shape (errors.As finds ParsingError/ValidationError), position (Position() < max(1,len(source named by Filename()))) and " +
@@ -618,7 +628,7 @@ func init() {
 			"io.EOF from Document.NextLexeme is the documented end-of-stream marker, not an error",
 			"jschema.ValidationError has no Position() by its public interface; code and message are required for it",
 			"errors that name a source synthesised by the library itself (the schema text built from a regex type) are rendered but their position is not compared with a length",
-			"termination is judged as bounded progress: a battery (all calls of one role on one <= 4 KiB input; legitimate cost: milliseconds) that has used 5 s of process CPU time or 120 s of wall time without returning is abandoned and reported; fatal errors (stack overflow) and runaway allocation end the worker and are isolated to the unit by the driver (confirmed three times in fresh processes)",
+			"termination is judged as bounded progress: a single library call on a <= 4 KiB input (legitimate cost: micro- to milliseconds) that has used 8 s of user CPU time of the process, or 600 s of wall time, without returning is abandoned and reported; fatal errors (stack overflow) and runaway allocation end the worker and are isolated to the unit by the driver (confirmed three times in fresh processes)",
 			"the static site table trusts go/parser extraction of the current tree; sites whose code or arity is not static are reported inconclusive",
 		},
 		Units: func(tier string, seed uint64) int {
@@ -638,7 +648,7 @@ func init() {
 			if tier == "thorough" {
 				return 3600
 			}
-			return 600
+			return 1800
 		},
 		Replay: map[string]func(json.RawMessage) string{
 			"call": c07ReplayCall,
